@@ -2,6 +2,7 @@ import Driver.Common
 import GM.Spec.CMGen
 import GM.Spec.CMEnum
 import GM.Spec.CMEmph
+import GM.Spec.CMLink
 namespace Driver
 open GM GM.Spec.CM
 
@@ -53,6 +54,36 @@ def handleCMSpec : List String → String
   -- (outside `emphOnly` / not a sequence of paragraphs); `cmspec emphi <hex inline content>` → HTML of the inline content
   | ["emph", h] => hx h fun src =>
       match GM.Spec.CMEmph.emphDoc GM.Spec.CMEmph.ucls0 src with
+      | some out => hexOfBytes out
+      | none => "n-a"
+  -- spec-side inline-link reference (GM.Spec.CMLink): `cmspec link <hex source>` → `<hex prescribed HTML>` or `n-a`
+  | ["link", h] => hx h fun src =>
+      match GM.Spec.CMLink.linkDoc src with
+      | some out => hexOfBytes out
+      | none => "n-a"
+  -- attribution: `cmspec linkattr <0 document | 1 document + `[a]: /u` | 2 definition axis> <hex source> <hex goldmark output>` → the smallest set of deviation switches (mask: 1 ctl,
+  -- 2 unbal, 4 pointyLt, 8 noSep) under which the reference reproduces the output, or `none`
+  | ["linkattr", r, h, g] => hx h fun src => hx g fun got =>
+      match GM.Spec.CMLink.attributeDev (r.toNat?.getD 0) src got with
+      | some m => toString m
+      | none => "none"
+  -- step two: `cmspec linkr <hex body>` → prescribed HTML of body + blank line + `[a]: /u`
+  -- `cmspec linkrx <hex body> <hex label> <hex destination> <hex title | none>`: one definition given explicitly (spec examples)
+  | ["linkrx", h, l, d, ti] => hx h fun src => hx l fun lab => hx d fun dest =>
+      let title : Option (Option GM.Bytes) := if ti == "none" then some none else (GM.bytesOfHex ti).map some
+      match title with
+      | none => bad
+      | some title =>
+        match GM.Spec.CMLink.linkDocRefX src lab dest title with
+        | some out => hexOfBytes out
+        | none => "n-a"
+  -- link reference definitions: `cmspec linkdef <hex X>` → prescribed HTML of `[a]: X` + blank line + `[a]`
+  | ["linkdef", h] => hx h fun x =>
+      match GM.Spec.CMLink.defDoc x with
+      | some out => hexOfBytes out
+      | none => "n-a"
+  | ["linkr", h] => hx h fun src =>
+      match GM.Spec.CMLink.linkDocRef src with
       | some out => hexOfBytes out
       | none => "n-a"
   | ["emphi", h] => hx h fun src =>
